@@ -74,6 +74,18 @@ M = [
  ("r-strip-unknown-names", ["C14:DM-strip-set"], IT, '            "hash" => self.is_match_cmp_attr(CompareOp::Hash),\n            _ => false,', '            "hash" => self.is_match_cmp_attr(CompareOp::Hash),\n            _ => true,'),
  ("r-dollar-matcher-negated", ["C01:TP-key-apply"], CO, "&|t| matches!(t, TokenTree::Punct(p) if p.as_char() == '$'),", "&|t| matches!(t, TokenTree::Punct(p) if p.as_char() != '$'),"),
  ("r-output-type-any-assoc", ["C09:DM-output-type"], II, '            if t.ident == "Output" {', '            if t.ident != "Output" {'),
+ # ---- probes for functions no check evaluated (evaluator coverage audit)
+ ("g-attr-name-swapped", ["C01"], IT, 'CompareOp::Ord => "ord",\n            CompareOp::PartialOrd => "partial_ord",', 'CompareOp::Ord => "partial_ord",\n            CompareOp::PartialOrd => "ord",'),
+ ("g-param-contains-negated", ["C03"], SU, "        self.idents.contains(&ident.unraw())", "        !self.idents.contains(&ident.unraw())"),
+ ("g-expand-self-noop", ["C09"], SU, "            if i == &tself {\n                *i = self.to.clone();\n            } else {", "            if i == &tself {\n            } else {"),
+ ("g-expand-self-no-descent", ["C09"], SU, "            } else {\n                visit_type_mut(self, i);\n            }", "            }"),
+ ("g-default-placeholder-is-value", ["C11"], IT, "            let value = if args.value == parse_quote!(_) {\n                None\n            } else {\n                Some(args.value)\n            };", "            let value = Some(args.value);"),
+ ("g-op-from-str-prefix", ["C09"], II, "        if s.ends_with(suffix) {\n            s = &s[..s.len() - suffix.len()];\n            form = OpForm::Assign;", "        if s.ends_with(suffix) {\n            s = &s[..s.len() - suffix.len()];\n            form = OpForm::Binary;"),
+ ("g-from-variants-reversed", ["C07"], IT, "        variants\n            .into_iter()\n            .map(|variant| Self::new(variant, kinds))", "        variants\n            .into_iter()\n            .collect::<Vec<_>>()\n            .into_iter()\n            .rev()\n            .map(|variant| Self::new(variant, kinds))"),
+ ("g-derive-entry-swallows-error", ["C15"], LB, "    match item_type::build_derive(input) {\n        Ok(s) => s,\n        Err(e) => e.to_compile_error(),", "    match item_type::build_derive(input) {\n        Ok(s) => s,\n        Err(_) => TokenStream::new(),"),
+ ("g-parse-single-last-wins", ["C05"], IT, '            if item.is_some() {\n                bail!(attr.span(), "#[{}] was specified twice", name)\n            }', ""),
+ ("g-contains-in-type-negated", ["C03:DM-mentions-param"], SU, "        visitor.visit_type(ty);\n        visitor.result", "        visitor.visit_type(ty);\n        !visitor.result"),
+ ("g-derive-ex-attrs-negated", ["C15:DM-arg-merge"], IT, "        if attr.path() == &parse_quote!(derive_ex) {", "        if attr.path() != &parse_quote!(derive_ex) {"),
  # benign variants: every listed property must stay silent
  ("benign-rename-local", [], IT, "let use_bounds = e.push_bounds_to(&mut wcb);\n    let mut ctor_args = Vec::new();\n    let mut clone_from_exprs = Vec::new();", "let use_bounds = e.push_bounds_to(&mut wcb);\n    let mut ctor_args = Vec::new();\n    let mut clone_from_exprs = Vec::new();\n    let _unused_marker = 0;"),
 ]
